@@ -5,7 +5,11 @@ use crate::term::*;
 use crate::util::*;
 use icy_engine::{Buffer, Sixel};
 
-const SLOW_MS: u128 = 400;
+/// a token slower than this (debug build) counts as unbounded work; generous: the slowest legitimate token of the
+/// table (a macro replaying 40 screenfuls of REP) takes ~0.3 s here
+fn slow_ms() -> u128 {
+    std::env::var("VERIF_slow_ms()").ok().and_then(|v| v.parse().ok()).unwrap_or(3000)
+}
 
 pub fn worker(inp: &str, out: &std::path::Path) {
     worker_loop(inp, out, |line, emit| {
@@ -38,7 +42,7 @@ pub fn worker(inp: &str, out: &std::path::Path) {
             emit(format!("X {} {} {}", cls, ms, bytes));
             return;
         }
-        run_case(line, SLOW_MS, emit);
+        run_case(line, slow_ms(), emit);
     });
 }
 
@@ -200,7 +204,8 @@ pub fn run(run: &mut Run, seed: u64, thorough: bool, replay: Option<&str>, corpu
                 } else {
                     case.split_whitespace().nth(4).map(|l| l.split(',').nth(1).unwrap_or("?").split('*').next().unwrap_or("?").to_string()).unwrap_or_else(|| "?".to_string())
                 };
-                run.oracle_fail(&format!("{}:{}:{}", fam, label, reason.split(':').next().unwrap_or("abort")), &short, &format!("worker died ({}): runaway time or memory", reason));
+                // abort (allocation failure under the address-space cap) and timeout (no cap available / slow) are the same finding
+                run.oracle_fail(&format!("{}:{}:runaway", fam, label), &short, &format!("worker died ({}): runaway time or memory", reason));
                 run.evaluations += 1;
             }
             Ok(lines) => {
@@ -224,7 +229,7 @@ pub fn run(run: &mut Run, seed: u64, thorough: bool, replay: Option<&str>, corpu
                         Some(&"F") => {
                             let ms: u128 = p[3].parse().unwrap_or(0);
                             let cells: u64 = p[4].parse().unwrap_or(0);
-                            if ms >= SLOW_MS || cells > 4_000_000 {
+                            if ms >= slow_ms() || cells > 4_000_000 {
                                 run.oracle_fail(&format!("file:{}:slow-or-huge", p[1]), &short, &format!("loader {} took {} ms, allocated {} cells", p[1], ms, cells));
                             }
                             run.evaluations += 1;
@@ -233,7 +238,7 @@ pub fn run(run: &mut Run, seed: u64, thorough: bool, replay: Option<&str>, corpu
                         Some(&"X") => {
                             let ms: u128 = p[2].parse().unwrap_or(0);
                             let bytes: u64 = p[3].parse().unwrap_or(0);
-                            if ms >= SLOW_MS || bytes > 64_000_000 {
+                            if ms >= slow_ms() || bytes > 64_000_000 {
                                 run.oracle_fail("sixel:slow-or-huge", &short, &format!("sixel decode took {} ms, {} bytes", ms, bytes));
                             }
                             run.evaluations += 1;
